@@ -184,7 +184,7 @@ FP_IAUTH = {
 
 STEP_EVENTS = ["EV_N", "EV_d", "EV_n", "EV_u", "EV_U", "EV_H", "EV_P", "EV_X", "EV_x", "EV_TIMER", "EV_D", "EV_T", "EV_C"]
 STEP_UNWINDSET = ["set_splay.0:4", "set_first.0:4", "set_clear.0:4", "set_dispose_node:2", "set_clear:2",
-                  "iauth_req_cleanup:2", "strcmp.0:70", "strlen.0:70", "strchr.0:70",
+                  "iauth_req_cleanup:2", "strcmp.0:70", "strncmp.0:16", "strlen.0:70", "strchr.0:70",
                   "iauth_xquery_check_password.0:14", "iauth_xquery_check_password.1:14",
                   "iauth_xquery_check_password.2:14", "iauth_xquery_check_password.3:14",
                   "strtoul.0:8", "strtoul.1:8", "strtol.0:8", "strtol.1:8", "strtol.2:8",
@@ -201,24 +201,29 @@ def step_job(name, check, nreq=2, nsvc=2, events=STEP_EVENTS, extra=None):
             "flags": ["--sat-solver", "cadical"], "timeout": 900}
 
 
-RECIPES["C01"] = {
-    "units": ["modules/iauth_core.c", "modules/iauth_xquery.c", "modules/iauth_class.c", "modules/iauth_misc.c", "src/set.c", "src/bitset.c", "src/common.c"],
-    "jobs": [step_job("step", "CHECK_ALL")],
-}
+_STEP_UNITS = ["modules/iauth_core.c", "modules/iauth_xquery.c", "modules/iauth_class.c", "modules/iauth_misc.c", "src/set.c", "src/bitset.c", "src/common.c"]
+_EV_DATA = ["EV_N", "EV_d", "EV_n", "EV_u", "EV_U", "EV_H", "EV_P"]
+_EV_REPLY = ["EV_X", "EV_x", "EV_TIMER"]
+
+RECIPES["C01"] = {"units": _STEP_UNITS, "jobs": [step_job("step", "CHECK_C01")]}
+RECIPES["C02"] = {"units": _STEP_UNITS, "jobs": [step_job("step", "CHECK_C02", events=_EV_DATA + _EV_REPLY)]}
+RECIPES["C03"] = {"units": _STEP_UNITS, "jobs": [step_job("step", "CHECK_C03", events=_EV_DATA + _EV_REPLY + ["EV_C"])]}
+RECIPES["C05"] = {"units": _STEP_UNITS, "jobs": [step_job("step", "CHECK_C05", events=_EV_REPLY + ["EV_H", "EV_U", "EV_P"])]}
+RECIPES["C06"] = {"units": _STEP_UNITS, "jobs": [step_job("step", "CHECK_C06", events=_EV_DATA)]}
+RECIPES["C07"] = {"units": _STEP_UNITS, "jobs": [step_job("step", "CHECK_C07")]}
+RECIPES["C10"] = {"units": _STEP_UNITS, "jobs": [step_job("step", "CHECK_C10")]}
 
 RECIPES["C04"] = {
     "units": ["modules/iauth_core.c", "modules/iauth_xquery.c", "src/set.c"],
     "jobs": [
+        step_job("step", "CHECK_C04", events=["EV_X", "EV_x", "EV_N"]),
         {"name": "tag", "src": ["C04_tag.c"] + IAUTH, "defs": {"quick": {"VP_ND": 9}, "thorough": {"VP_ND": 12}},
          "unwind": 40, "unwindset": ["set_splay.0:4"], "fp_restrict": FP_IAUTH, "timeout": 600},
     ],
 }
 
-# Properties without a claimed check, with the reason (kept current by hand).
-NOT_APPLICABLE = {}
-
 IAUTH_NOMISC = ["env/misc_stub.c"] + [x for x in IAUTH if x != "repo:modules/iauth_misc.c"]
-LINE_UW = STEP_UNWINDSET + ["iauth_read.0:3", "iauth_read.1:20", "iauth_read.2:12", "iauth_read.3:12", "iauth_read.4:12",
+LINE_UW = STEP_UNWINDSET + ["iauth_read.0:3", "iauth_read.1:100", "iauth_read.2:20", "iauth_read.3:100", "iauth_read.4:100",
                             "known_cmd.0:20", "harness.0:100", "harness.1:100", "harness.2:100", "memcpy.0:100"]
 
 
@@ -326,3 +331,6 @@ RECIPES["C20"] = {
          "fp_restrict": FP_MODULE, "timeout": 900},
     ],
 }
+
+# Properties without a claimed check, with the reason (kept current by hand).
+NOT_APPLICABLE = {}
